@@ -345,6 +345,16 @@ impl Store {
         current
     }
 
+    fn get_lock_node_mut(&mut self, path: &[RegularKeySegment]) -> Option<&mut LockNode> {
+        let mut current = &mut self.locks;
+
+        for elem in path {
+            current = current.get_child_mut(elem)?;
+        }
+
+        Some(current)
+    }
+
     pub fn delete(
         &mut self,
         path: &[RegularKeySegment],
@@ -1073,9 +1083,11 @@ impl Store {
         client_id: ClientId,
         path: &[RegularKeySegment],
     ) -> WorterbuchResult<Option<ClientId>> {
-        let node = self.get_or_create_lock_node(path.into());
+        // look the lock up without creating nodes: a release of a key that is not locked must not
+        // leave empty lock nodes behind (they break the clean tree invariant of the lock tree)
+        let lock = self.get_lock_node_mut(path).and_then(Node::value_mut);
 
-        if let Some(lock) = node.value_mut() {
+        if let Some(lock) = lock {
             let (was_holder, new_holder) = lock.release(client_id).await;
             if !was_holder {
                 return Err(WorterbuchError::KeyIsLocked(path.join("/")));
